@@ -169,7 +169,7 @@ func genC14Scripts(t *rapid.T, c *c14Case) {
 	}
 	if rapid.IntRange(0, 9).Draw(t, "drain") < 8 {
 		c.Client = append(c.Client, c14Op{K: "drain"})
-		for n := rapid.IntRange(0, 4).Draw(t, "nafter"); n > 0; n-- {
+		for n := rapid.SampledFrom([]int{0, 0, 0, 1, 2, 3, 4}).Draw(t, "nafter"); n > 0; n-- {
 			switch k := rapid.IntRange(0, 5).Draw(t, "ak"); {
 			case k < 3:
 				c.Client = append(c.Client, c14Op{K: "recv"})
@@ -413,6 +413,11 @@ func c14Mock(c c14Case) c14Transport {
 
 // ---- recorded history -----------------------------------------------------------------
 
+// c14Event is one call. start is taken just before the call and end just after a yield
+// that follows its return, so [start, end] contains the call and "a.end < b.start" means
+// that a really returned before b was made; two calls that return in the same scheduling
+// step get their ends in the order the seeded scheduler picks (the runtime's own order of
+// two goroutines that became runnable together is not reproducible).
 type c14Event struct {
 	side  byte // 'c' or 's'
 	op    c14Op
@@ -583,10 +588,12 @@ func runC14In(c c14Case, st *drv.Stats, bubble bool) (fail *drv.Failure) {
 				e.id, e.msg = nSent, c14Payload('s', nSent, op.Size)
 				nSent++
 				err := srv.Send(Response{ID: e.id, Message: e.msg})
+				sim.Yield(sim.ClassTask, "s"+strconv.Itoa(i)+" done")
 				h.finish(e, 0, "", err)
 			case "recv":
 				e := h.begin('s', op)
 				req, err := srv.Receive()
+				sim.Yield(sim.ClassTask, "s"+strconv.Itoa(i)+" done")
 				h.finish(e, req.ID, req.Message, err)
 			case "pause":
 				c14Sleep(op.MS)
@@ -626,10 +633,12 @@ func runC14In(c c14Case, st *drv.Stats, bubble bool) (fail *drv.Failure) {
 				e.id, e.msg = nSent, c14Payload('c', nSent, op.Size)
 				nSent++
 				err := stream.Send(Request{ID: e.id, Message: e.msg})
+				sim.Yield(sim.ClassTask, "c"+strconv.Itoa(i)+" done")
 				h.finish(e, 0, "", err)
 			case "recv":
 				e := h.begin('c', op)
 				res, err := stream.Receive()
+				sim.Yield(sim.ClassTask, "c"+strconv.Itoa(i)+" done")
 				h.finish(e, res.ID, res.Message, err)
 			case "drain":
 				for n := 0; ; n++ {
@@ -638,6 +647,7 @@ func runC14In(c c14Case, st *drv.Stats, bubble bool) (fail *drv.Failure) {
 					}
 					e := h.begin('c', c14Op{K: "recv"})
 					res, err := stream.Receive()
+					sim.Yield(sim.ClassTask, "c"+strconv.Itoa(i)+" done")
 					h.finish(e, res.ID, res.Message, err)
 					if err != nil || n > 10_000 {
 						break
@@ -646,6 +656,7 @@ func runC14In(c c14Case, st *drv.Stats, bubble bool) (fail *drv.Failure) {
 			case "close":
 				e := h.begin('c', op)
 				err := stream.CloseSend()
+				sim.Yield(sim.ClassTask, "c"+strconv.Itoa(i)+" done")
 				h.finish(e, 0, "", err)
 			case "pause":
 				c14Sleep(op.MS)
@@ -743,6 +754,12 @@ func runC14In(c c14Case, st *drv.Stats, bubble bool) (fail *drv.Failure) {
 				}
 			}
 			nontrivial = msgs >= 2 && ended
+		}
+		if p := os.Getenv("VERIF_C14_OUTLOG"); p != "" {
+			if f, err := os.OpenFile(p, os.O_CREATE|os.O_WRONLY|os.O_APPEND, 0o644); err == nil {
+				fmt.Fprintf(f, "%s sched=%x %s\n", shape.String(), schedHash, c14Outcomes(h))
+				_ = f.Close()
+			}
 		}
 		st.Case(drv.Hash64(shape.String(), strconv.FormatUint(schedHash, 16), c14Outcomes(h)), nontrivial)
 	}
